@@ -13,3 +13,4 @@
 (define-fun dec_bits_ok ((a Int)) Bool (and (< a 66749594872528440074844428317798503581334516323645399060845050244444366430645017188217565216768) (> a (- 66749594872528440074844428317798503581334516323645399060845050244444366430645017188217565216768))))
 (define-fun int_bits_ok ((a Int)) Bool (and (< a 115792089237316195423570985008687907853269984665640564039457584007913129639936) (> a (- 115792089237316195423570985008687907853269984665640564039457584007913129639936))))
 (define-fun is_int64 ((a Int)) Bool (and (<= (- 9223372036854775808) a) (<= a 9223372036854775807)))
+(declare-fun dec_parse (Str) Int)
